@@ -66,14 +66,18 @@ LEVEL_NOTE = ("Trusted: Lean kernel; the statements in Props/C14.lean including 
               "(vybocujici_abscl_, C14-F1 is a known finding there: the tree tests the homogenised entry, the documentation "
               "promises the positional misclosure; and for correlated blocks the homogenised vector of the deleted input is "
               "not a sub-vector of the original), IEEE rounding, all algorithms x tol-abs on gama-local.  "
-              "PHYSICAL deletion of <point>/<obs> elements (round 12, Props/C14Physical.lean): proved for ONE inner call — "
-              "the linearisation pass under any injective relabelling of point/cluster positions returns the same rows and "
-              "right-hand side and the relabelled index table (C14_pe_pass_relabelled), and assembling the network with its "
-              "unused points and emptied clusters removed gives the same m, n, rows, rhs, cofactor blocks, hence the same "
-              "netSolve answer for every algorithm (C14_pe_solution_equals_physical_deletion_partial, hypothesis RolesKept); "
-              "NOT proved for the whole call: the revision, singular_coords, min_x and the unknowns_ table under the "
-              "relabelling — there the oracle (gama-local on the file with the elements deleted) is the evidence; a removed "
-              "point left in the file as free costs a second inner call (evaluated example corFree, same answers).")
+              "PHYSICAL deletion of <point>/<obs> elements (rounds 12-13, Props/C14Physical.lean): the linearisation pass under any "
+              "injective relabelling of point/cluster positions returns the same rows and right-hand side and the relabelled "
+              "index table (C14_pe_pass_relabelled); for every network on which the revision is stable, assembling the network "
+              "with its unused points and emptied clusters removed gives the same m, n, rows, rhs, cofactor blocks, hence the "
+              "same netSolve answer for every algorithm (C14_pe_inner_call_equals_physical_deletion; no hypothesis on role "
+              "slots: the regenerated member functions do not read the slots their class does not use); and the WHOLE call "
+              "project_equations() on the physically deleted network is one inner call with the same singular_coords verdict, "
+              "min_n_, min_x_ and the same answer of every algorithm (C14_pe_solution_equals_physical_deletion_partial) UNDER "
+              "THE HYPOTHESIS that the revision is stable on the physically deleted network (isRevised under the renaming: not "
+              "proved); the unknowns_ table under the relabelling is not compared.  There the oracle (gama-local on the file "
+              "with the elements deleted) is the evidence.  A removed point left in the file as free costs a second inner call "
+              "(evaluated example corFree, same answers).")
 TECHNIQUE = "Lean 4 proof over a model partly regenerated from the source (translator) + model/implementation correspondence + end-to-end oracle"
 TRUSTED = ["tools/gen/c14_revision.py: regex/mini-parser translator of local_revision.{h,cpp}, TestAbsTermVisitor and the "
            "StandPoint loop of revision_observations (interpreter TStmt.run / TCond.eval in Model/ReviseTypes.lean: std::set as a "
